@@ -490,6 +490,46 @@ fn parsers(rep: &mut Report, thorough: bool) {
             rep.violation(if e.contains("panicked") { "C20:task-panicked" } else { "C20:task-spins-or-blocks" }, &format!("{n}: {e}"), json!({"engine": "IX"}));
         }
     }
+    // the CLIENT side of a UDP association reads length-prefixed datagrams written by the server: hostile prefixes and
+    // bodies (before and after the application has sent anything), then end of stream
+    let r3: Vec<(String, Option<String>)> = rt.block_on(async {
+        let mut out = vec![];
+        for lp in [0u16, 1, 2, 255, 1472, 1473, 65506, 65507, 65508, 65535] {
+            for body in [0usize, 1, 3, lp as usize, lp as usize + 1] {
+                for app_first in [false, true] {
+                    let Ok(local) = tokio::net::UdpSocket::bind("127.0.0.1:0").await else { continue };
+                    let laddr = local.local_addr().unwrap();
+                    let Ok(app) = tokio::net::UdpSocket::bind("127.0.0.1:0").await else { continue };
+                    let (st, feed, _o) = hand_stream(4);
+                    let h = tokio::spawn(anytls_rs::client::verif_udp_proxy_loop(local, st));
+                    if app_first {
+                        let _ = app.send_to(b"hello", laddr).await;
+                        tokio::time::sleep(Duration::from_millis(5)).await;
+                    }
+                    let mut v = lp.to_be_bytes().to_vec();
+                    v.extend(std::iter::repeat(b'r').take(body));
+                    let _ = feed.send(Bytes::from(v));
+                    // a well-formed small datagram follows (it is part of the body when the prefix promised more)
+                    let _ = feed.send(Bytes::from_static(&[0, 2, b'o', b'k']));
+                    drop(feed);
+                    let r = match tokio::time::timeout(Duration::from_secs(20), h).await {
+                        Err(_) => Some("blocks although the stream has ended".to_string()),
+                        Ok(Err(e)) if e.is_panic() => Some("panicked".to_string()),
+                        _ => None,
+                    };
+                    out.push((format!("client side of a UDP association: length prefix {lp} with {body} body bytes from the server (application has sent {})", if app_first { "a datagram" } else { "nothing yet" }), r));
+                }
+            }
+        }
+        out
+    });
+    let n_r3 = r3.len();
+    for (n, r) in r3 {
+        rep.case(Some(&n));
+        if let Some(e) = r {
+            rep.violation(if e.contains("panicked") { "C20:task-panicked" } else { "C20:task-spins-or-blocks" }, &format!("{n}: {e}"), json!({"engine": "IX"}));
+        }
+    }
     drop(rt);
     // HTTP header blocks: multi-byte characters at every offset of a header line, odd targets, missing parts
     let mut blocks: Vec<String> = vec![];
@@ -524,7 +564,7 @@ fn parsers(rep: &mut Report, thorough: bool) {
             rep.violation("C20:task-panicked", &format!("HTTP request parser/rewriter panicked on {:?}", b), json!({"engine": "IX", "header_block": b}));
         }
     }
-    rep.sections.insert("parser_inputs".into(), json!({"address_and_udp_parsers": n_inputs, "http_header_blocks": blocks.len()}));
+    rep.sections.insert("parser_inputs".into(), json!({"address_and_udp_parsers": n_inputs, "client_side_udp_streams": n_r3, "http_header_blocks": blocks.len()}));
 }
 
 /// LX: malformed input on the SOCKS5 and HTTP listeners; a good request on a sibling connection must still work.
